@@ -151,9 +151,15 @@ class Playback(BaseEngine):
             delays = [pick(rng, (0.0, 0.0, 0.001, 0.5, 5.0)) for _ in range(5)]
         else:
             delays = ['to_next']
+        second = None
+        if rng.random() < 0.35:
+            second = {'mutate_yielded': rng.random() < 0.7,
+                      'edit': pick(rng, (None, 'tpb', 'tpb', 'tempo', 'delta')),
+                      'tpb': pick(rng, TPBS), 'value': pick(rng, (1, 250000, 1000000, 16777215)),
+                      'pick': rng.randrange(1000)}
         return {'prop': prop, 'type': ftype, 'tpb': tpb, 'tracks': tracks, 'clock': clock,
                 'delays': delays, 'abandon_after': pick(rng, (None, None, None, 0, 1, 3)),
-                'meta_messages': rng.random() < 0.4}
+                'meta_messages': rng.random() < 0.4, 'second': second}
 
     # ------------------------------------------------------------ execution
     def abort_cleanup(self):
@@ -230,6 +236,10 @@ class Playback(BaseEngine):
             log.ev('type2-refused')
             return
         model = self._model(plan, tracks)
+        seq = self._check_iter_length(mf, model, tracks, snapshot, log, sim, 'first')
+        self._rest(plan, mf, model, tracks, seq, log, stats, cov)
+
+    def _check_iter_length(self, mf, model, tracks, snapshot, log, sim, which):
         # ---- iteration and length
         try:
             seq = list(mf)
@@ -257,8 +267,11 @@ class Playback(BaseEngine):
             raise Violation('length', f'length is {ln!r}, cumulative time of the last message is {total!r}')
         if [[(m.type, m.time) for m in tr] for tr in tracks] != snapshot:
             raise Violation('iter:mutated-tracks', 'iterating changed the tracks')
-        log.ev('iter', len(seq), repr(ln))
+        log.ev('iter', which, len(seq), repr(ln))
         sim[0] += total
+        return seq
+
+    def _rest(self, plan, mf, model, tracks, seq, log, stats, cov):
         # ---- unit conversions on the triples that occur
         tempos = {500000} | {m.tempo for m, _, _ in model if m.type == 'set_tempo' and m.tempo > 0}
         ticks = {t for _, t, _ in model}
@@ -285,6 +298,41 @@ class Playback(BaseEngine):
             stats['probe:tempo_change_in_second_track'] += 1
         # ---- play() on the simulated clock
         self._play(plan, mf, model, log, stats)
+        # ---- the same object observed again: after the consumer edited what it was handed, and/or after an edit
+        sec = plan.get('second')
+        if sec:
+            if sec['mutate_yielded']:
+                for m in seq:
+                    try:
+                        m.time = 1234.5
+                        if m.type == 'note_on':
+                            m.note = (m.note + 1) % 128
+                    except Exception:
+                        pass
+                stats['fault:consumer_mutates_yielded'] += 1
+            if sec['edit'] == 'tpb':
+                mf.ticks_per_beat = sec['tpb']
+                plan2 = dict(plan, tpb=sec['tpb'])
+            else:
+                plan2 = plan
+                flat = [(ti, i) for ti, tr in enumerate(tracks) for i, m in enumerate(tr)
+                        if (sec['edit'] == 'tempo' and m.type == 'set_tempo') or sec['edit'] == 'delta']
+                if sec['edit'] in ('tempo', 'delta') and flat:
+                    ti, i = flat[sec['pick'] % len(flat)]
+                    if sec['edit'] == 'tempo':
+                        tracks[ti][i].tempo = sec['value']
+                    else:
+                        tracks[ti][i].time = tracks[ti][i].time + 7
+            snapshot2 = [[(m.type, m.time) for m in tr] for tr in tracks]
+            model2 = self._model(plan2, tracks)
+            sim2 = [0.0]
+            try:
+                self._check_iter_length(mf, model2, tracks, snapshot2, log, sim2, 'second')
+            except Violation as v:
+                raise Violation('second-pass:' + v.sig, f'second observation of the same object (consumer mutated what '
+                                                        f'it was handed: {sec["mutate_yielded"]}, edit: {sec["edit"]}): '
+                                                        + v.msg)
+            stats['probe:second_pass'] += 1
         cov.add(f't{plan["type"]}|{plan["clock"]["fault"]}|{"meta" if plan["meta_messages"] else "nometa"}')
         if len(model) > 1:
             stats['_nontrivial'] += 1
